@@ -9,6 +9,7 @@ import os
 import shutil
 import subprocess
 import sys
+import threading
 import time
 from concurrent.futures import ThreadPoolExecutor
 
@@ -53,6 +54,10 @@ class BuildError(Exception):
     pass
 
 
+_locks = {}
+_locks_guard = threading.Lock()
+
+
 def _key(cmd_tail):
     h = hashlib.sha256()
     h.update(include_hash().encode())
@@ -69,10 +74,17 @@ def build(cfg, source, defs=(), extra=(), libs=(), expect_failure_ok=False):
     key = _key(tail)
     outdir = os.path.join(CACHE, key)
     exe = os.path.join(outdir, 'drv')
+    with _locks_guard:
+        lock = _locks.setdefault(key, threading.Lock())
+    with lock:      # two jobs with the same command line (vector and scalar configuration twins) build once
+        return _build_locked(cfg, source, defs, tail, outdir, exe)
+
+
+def _build_locked(cfg, source, defs, tail, outdir, exe):
     if os.path.exists(exe):
         os.utime(outdir, None)
         return exe
-    tmpdir = outdir + '.tmp%d' % os.getpid()
+    tmpdir = outdir + '.tmp%d_%d' % (os.getpid(), threading.get_ident())
     os.makedirs(tmpdir, exist_ok=True)
     cmd = tail + ['-o', os.path.join(tmpdir, 'drv')]
     t0 = time.time()
